@@ -89,6 +89,19 @@ def run(tier, rng, C):
         cases.append({'id': cid, 'line': G.inv_line(cid, inv, 'all'), 'show': 'inventory of %d nodes, failing: %s' % (nn, sorted(failing)), 'nontrivial': True})
         meta[cid] = (inv, failing)
 
+    # the edge sizes: no node at all (classes only), one node, one node per worker thread +- 1
+    for i, nn in enumerate([0, 0, 1, 15, 16, 17, 33]):
+        inv = G.Inv()
+        inv.classes[('c.yml',)] = G.doc([], ['app'], ('m', [(S('v'), I(1))]))
+        if i == 1:
+            inv.classes[('d', 'e.yml')] = G.doc(['c'], [], ('m', []))
+        for j in range(nn):
+            inv.nodes[('e%02d.yml' % j,)] = G.doc(['c'], ['own%d' % (j % 3)], ('m', [(S('j'), I(j))]))
+        inv.universe.update(['c', 'd.e'])
+        cid = C.case_id('e', i)
+        cases.append({'id': cid, 'line': G.inv_line(cid, inv, 'all'), 'show': 'inventory of %d nodes' % nn, 'nontrivial': True})
+        meta[cid] = (inv, set())
+
     def oracle(cases, mobs, iobs):
         fails = []
         for c in cases:
@@ -151,5 +164,5 @@ def run(tier, rng, C):
     rule = ('%d inventories with 2-10 nodes over shared class graphs, overlapping class/application sets with negations, application names that are also class names of the same node, nodes without classes, one third '
             'with a random subset of failing nodes (missing class, reference loop, malformed reference, a node file that cannot be loaded: wrong field shape, not a mapping, invalid YAML); full render through the index accessor hook; '
             'oracle: indexes = sorted exact inverse of the implementation\'s own per-node lists, nodes = discovered nodes, fails iff '
-            'some node fails and names one; non-trivial = all (>= 2 nodes)' % n)
+            'some node fails and names one; plus inventories of 0, 1, 15-17 and 33 nodes; non-trivial = all' % n)
     return C.standard_run(cases, rule, key_fn=lambda c, m, i, r: 'model-impl-differ', extra_oracle=oracle)
